@@ -27,6 +27,27 @@ pub fn snippets(tier: Tier) -> Vec<Snip> {
     for (name, code) in crate::progs::extra_programs(tier) {
         v.push(Snip { name, code });
     }
+    // whole files: examples/ and the regression programs of tests/bug_samples (test attributes removed so
+    // the functions are ordinary functions, run with their scalar arguments or none)
+    for dir in ["/repo/examples", "/repo/tests/bug_samples"] {
+        let mut files = vec![];
+        crate::text::walk_cairo_files(std::path::Path::new(dir), &mut files);
+        for f in files {
+            if f.file_name().map(|n| n == "lib.cairo").unwrap_or(false) {
+                continue;
+            }
+            let Ok(src) = std::fs::read_to_string(&f) else { continue };
+            let code: String = src
+                .lines()
+                .filter(|l| {
+                    let t = l.trim_start();
+                    !(t.starts_with("#[test]") || t.starts_with("#[available_gas") || t.starts_with("#[should_panic") || t.starts_with("#[ignore]"))
+                })
+                .map(|l| format!("{l}\n"))
+                .collect();
+            v.push(Snip { name: format!("file:{}", f.strip_prefix("/repo").unwrap().to_string_lossy().trim_start_matches('/')), code });
+        }
+    }
     v
 }
 
@@ -69,22 +90,97 @@ impl Dbs {
     }
 }
 
-/// All argument vectors for a function with scalar user parameters (None if it has other parameters).
-pub fn input_vectors(f: &Function, small: bool, max_params: usize, max_vectors: usize) -> Option<Vec<Vec<Felt>>> {
-    let params = user_params(f);
-    if params.len() > max_params {
+/// Alternatives for one value of a Sierra type, decided structurally from the type declarations: scalars
+/// from the boundary domains, structs/tuples as products of their members, snapshots as their inner type,
+/// NonZero without zero, bool, arrays (empty, one element, three elements). Each alternative is the list
+/// of runner arguments making up one value. None: the type is not generated (boxes, dicts, other enums ...).
+pub fn type_args(p: &Program, t: &cairo_lang_sierra::ids::ConcreteTypeId, small: bool, depth: usize) -> Option<Vec<Vec<Arg>>> {
+    use cairo_lang_sierra::program::GenericArg;
+    if depth > 6 {
+        return None;
+    }
+    let d = p.type_declarations.iter().find(|d| d.id == *t)?;
+    let g = d.long_id.generic_id.0.as_str();
+    let inner = |i: usize| -> Option<&cairo_lang_sierra::ids::ConcreteTypeId> {
+        match d.long_id.generic_args.get(i)? {
+            GenericArg::Type(x) => Some(x),
+            _ => None,
+        }
+    };
+    match g {
+        "felt252" | "u8" | "u16" | "u32" | "u64" | "u128" | "i8" | "i16" | "i32" | "i64" | "i128" => Some(domain(g, small)?.into_iter().map(|v| vec![Arg::Value(v)]).collect()),
+        "Snapshot" => type_args(p, inner(0)?, small, depth + 1),
+        "NonZero" => {
+            let v = type_args(p, inner(0)?, small, depth + 1)?;
+            Some(v.into_iter().filter(|a| !a.iter().all(|x| matches!(x, Arg::Value(f) if *f == Felt::ZERO))).collect())
+        }
+        "Enum" => match d.long_id.generic_args.first()? {
+            GenericArg::UserType(ut) if ut.debug_name.as_deref() == Some("core::bool") => Some(vec![vec![Arg::Value(Felt::ZERO)], vec![Arg::Value(Felt::ONE)]]),
+            _ => None,
+        },
+        "Struct" => {
+            let members: Vec<&cairo_lang_sierra::ids::ConcreteTypeId> = d.long_id.generic_args.iter().filter_map(|a| if let GenericArg::Type(x) = a { Some(x) } else { None }).collect();
+            if members.len() + 1 != d.long_id.generic_args.len() {
+                return None;
+            }
+            let mut alts: Vec<Vec<Arg>> = vec![vec![]];
+            for m in members {
+                let mut ma = type_args(p, m, true, depth + 1)?;
+                // keep the product small: at most 3 alternatives per member beyond the first member
+                if alts.len() > 1 && ma.len() > 3 {
+                    let n = ma.len();
+                    ma = vec![ma[0].clone(), ma[n / 2].clone(), ma[n - 1].clone()];
+                }
+                let mut next = vec![];
+                for a in &alts {
+                    for b in &ma {
+                        let mut c = a.clone();
+                        c.extend(b.iter().cloned());
+                        next.push(c);
+                    }
+                }
+                alts = next;
+                if alts.len() > 64 {
+                    alts.truncate(64);
+                }
+            }
+            Some(alts)
+        }
+        "Array" => {
+            let e = type_args(p, inner(0)?, true, depth + 1)?;
+            if e.is_empty() {
+                return None;
+            }
+            let pick = |i: usize| e[i % e.len()].clone();
+            let mk = |els: Vec<Vec<Arg>>| vec![Arg::Array(els.into_iter().flatten().collect())];
+            Some(vec![mk(vec![]), mk(vec![pick(1)]), mk(vec![pick(0), pick(e.len() - 1), pick(2)])])
+        }
+        _ => None,
+    }
+}
+
+/// All argument vectors for a function whose user parameters are generated types (None otherwise).
+pub fn input_vectors(p: &Program, f: &Function, small: bool, max_params: usize, max_vectors: usize) -> Option<Vec<Vec<Arg>>> {
+    let user: Vec<&cairo_lang_sierra::ids::ConcreteTypeId> = f.signature.param_types.iter().filter(|t| !IMPLICITS.contains(&t.debug_name.as_ref().map(|s| s.as_str()).unwrap_or(""))).collect();
+    if user.len() > max_params {
+        return None;
+    }
+    // the runner supports implicits plus ONE returned value: functions with `ref` parameters (several
+    // non-implicit returns) are outside what SierraCasmRunner::run_function can run
+    let non_implicit_rets = f.signature.ret_types.iter().filter(|t| !IMPLICITS.contains(&t.debug_name.as_ref().map(|s| s.as_str()).unwrap_or(""))).count();
+    if non_implicit_rets > 1 {
         return None;
     }
     let mut small = small;
     loop {
-        let doms = param_domains(&params, small)?;
+        let doms: Vec<Vec<Vec<Arg>>> = user.iter().map(|t| type_args(p, t, small, 0)).collect::<Option<_>>()?;
         let n: usize = doms.iter().map(|d| d.len()).product();
         if n <= max_vectors || small {
-            let mut out = vec![];
+            let mut out: Vec<Vec<Arg>> = vec![];
             if doms.is_empty() {
                 out.push(vec![]);
             } else {
-                cross(&doms, |v| out.push(v.to_vec()));
+                cross(&doms, |v| out.push(v.iter().flatten().cloned().collect()));
             }
             out.truncate(max_vectors);
             return Some(out);
@@ -93,9 +189,15 @@ pub fn input_vectors(f: &Function, small: bool, max_params: usize, max_vectors: 
     }
 }
 
-pub fn to_args(v: &[Felt]) -> Vec<Arg> {
-    v.iter().map(|f| Arg::Value(*f)).collect()
+pub fn args_str(v: &[Arg]) -> Vec<String> {
+    v.iter()
+        .map(|a| match a {
+            Arg::Value(f) => short_felt(f),
+            Arg::Array(x) => format!("[{}]", args_str(x).join(",")),
+        })
+        .collect()
 }
+
 
 pub fn value_json(v: &RunResultValue) -> Value {
     match v {
@@ -134,12 +236,12 @@ pub fn run_monitored(
     c: &Compiled,
     builder: Option<&RunnableBuilder>,
     f: &Function,
-    args: &[Felt],
+    args: &[Arg],
     gas: usize,
     case: &dyn Fn() -> Value,
 ) -> Option<RunResultValue> {
     ctx.count("evaluations", 1);
-    let a = to_args(args);
+    let a = args.to_vec();
     let (out, full) = run(c, f, &a, Some(gas));
     match out {
         Outcome::InputError(e) => {
